@@ -2,7 +2,13 @@ From Coq Require Import List Arith Bool.
 Import ListNotations.
 From V Require Import Model.Imports Corr.Util.
 
-(* the statements of the module, and the number of top-level statements the real ensure_import left in front of the inserted line *)
-Definition case := (list stmt * nat)%type.
-Definition ok (c : case) : bool := Nat.eqb (insert_index (fst c)) (snd c).
+(* the statements of the module (with: does the statement import the wanted name at top level / nested / not at all), and what the real
+   ensure_import did: None = no line inserted, Some i = i top-level statements stand in front of the inserted line *)
+Definition case := (list estmt * option nat)%type.
+Definition ok (c : case) : bool :=
+  match contains_import (fst c), snd c with
+  | true, None => true
+  | false, Some i => Nat.eqb (insert_index (map fst (fst c))) i
+  | _, _ => false
+  end.
 Definition mismatches (l : list case) : list nat := mism ok l.
